@@ -41,6 +41,10 @@ var (
 	one, _ = hex.DecodeString("01")
 
 	two, _ = hex.DecodeString("02")
+
+	// order of the prime-order subgroup, l = 2^252 + 27742317777372353535851937790883648493, little endian
+	groupOrder = [32]byte{0xed, 0xd3, 0xf5, 0x5c, 0x1a, 0x63, 0x12, 0x58, 0xd6, 0x9c, 0xf7, 0xa2, 0xde, 0xf9, 0xde, 0x14,
+		0, 0, 0, 0, 0, 0, 0, 0, 0, 0, 0, 0, 0, 0, 0, 0x10}
 )
 
 // VRFProve is the output prove of VRF_Ed25519.
@@ -124,6 +128,13 @@ func ECVRFVerify(pk PublicKey, pi VRFProve, m []byte) (bool, error) {
 	if err != nil {
 		return false, err
 	}
+	// The lottery output is read straight from the encoding of Gamma, so Gamma has to be
+	// unique: an honest prover's Gamma = x*H lies in the prime-order subgroup (x is clamped),
+	// whereas Gamma shifted by a small-order point passes the challenge check for a fraction
+	// of the nonces and would carry a different output for the same key and message.
+	if !inPrimeOrderSubgroup(gamma) {
+		return false, ErrDecodeError
+	}
 	sScalar32 := new([32]byte)
 	edwards25519.ScReduce(sScalar32, sScalar)
 
@@ -161,6 +172,14 @@ func ECVRFVerify(pk PublicKey, pi VRFProve, m []byte) (bool, error) {
 	cScalar16 := new([16]byte)
 	copy(cScalar16[:], cScalar[:])
 	return cPrime == *cScalar16, nil
+}
+
+// inPrimeOrderSubgroup reports whether l*p is the neutral element.
+func inPrimeOrderSubgroup(p *edwards25519.ExtendedGroupElement) bool {
+	q := edwards25519.GeScalarMult(p, &groupOrder)
+	encoded := new([32]byte)
+	q.ToBytes(encoded)
+	return *encoded == [32]byte{1}
 }
 
 /* Utility function to convert a "secret key" (32-byte seed || 32-byte PK)
